@@ -254,6 +254,23 @@ struct ViterVisitor<'a> {
 impl<'ast, 'a> Visit<'ast> for ViterVisitor<'a> {
     fn visit_expr_method_call(&mut self, e: &'ast syn::ExprMethodCall) {
         let outer = e.method.to_string();
+        // R5b: `recv.splice(a..b, w).collect()` -> `vx_splice(&mut recv, a, b, w)`
+        if outer == "collect" && e.args.is_empty() {
+            if let syn::Expr::MethodCall(inner) = &*e.receiver {
+                if inner.method == "splice" && inner.args.len() == 2 {
+                    if let syn::Expr::Range(r) = &inner.args[0] {
+                        if let (Some(a), Some(b), syn::RangeLimits::HalfOpen(_)) = (&r.start, &r.end, &r.limits) {
+                            let (s, en) = br(e.span());
+                            let t = |x: (usize, usize)| self.src[x.0..x.1].to_string();
+                            let text = format!("vx_splice(&mut {}, {}, {}, {})", t(br(inner.receiver.span())), t(br(a.span())), t(br(b.span())), t(br(inner.args[1].span())));
+                            self.rewrites.push(format!("R5b `{}` -> `{}`", norm(&self.src[s..en]), norm(&text)));
+                            self.edits.push(Edit { start: s, end: en, text, kind: "R5b splice".into(), prio: 0 });
+                            return;
+                        }
+                    }
+                }
+            }
+        }
         if ADAPTERS.contains(&outer.as_str()) {
             // receiver `.iter()` / `.into_iter()` with no arguments -> `.viter()`
             match &*e.receiver {
